@@ -161,14 +161,14 @@ NOMS = ['A', 'B', 'C D']
 
 def q_arff(v, style):
     """write a string value in ARFF with the chosen quote style (None = bare when possible)"""
-    need = v == '' or any(c in v for c in " ,'\"\\%{}\t?")
+    need = v == '' or v == '?' or any(c in v for c in " ,'\"\\%{}\t")          # a '?' inside a longer token needs no quotes
     if style == 'bare' and not need: return v
     qc = "'" if style in ('single','bare') else '"'
     return qc + v.replace('\\','\\\\').replace(qc, '\\'+qc) + qc
 
 def _classify_rt(v):
     info = v.get('info',{})
-    if info.get('fmt') == 'arff_sparse' and 'reader rejected a file in the common dialect' in v['what']:
+    if info.get('fmt') == 'arff_sparse' and ('reader rejected a file in the common dialect' in v['what'] or ('read as "\'' in v['what'] or "read as '\"" in v['what'])):
         return "arff_sparse: a quoted value containing a blank or comma makes the sparse row un-parsable (raises)"
     return f"{info.get('fmt')}:{v['what'].split(':')[0]}"[:130]
 
@@ -194,7 +194,9 @@ def table_roundtrip(sym, fmt):
             kw, comments, qs, delim = '@attribute', False, 'single', ','
         miss = sym.choice('missing', [None,(0,0),(1,1),(0,2),(1,0)])
         svals = [STR_VOCAB[unwrap(sym.int(f's{r}', 0, len(STR_VOCAB)-1))] for r in range(2)]
-        table = [[NUMS[r], svals[r], NOMS[(r+1) % 3]] for r in range(2)]
+        # sparse rows: the nominal level with a blank ('C D') runs into the known finding on every path, so it is only used on request
+        spaced = True if fmt == 'arff_dense' else sym.flag('spaced_nominal')
+        table = [[NUMS[r], svals[r], NOMS[(r+1) % 3] if spaced else NOMS[r]] for r in range(2)]
         common = delim == ',' and kw == '@attribute' and qs != 'double'
         lines = ['% a comment', '@relation t'] if comments else ['@relation t']
         lines += [f"{kw} num numeric", f"{kw} 'str col' string", f"{kw} nom {nomdecl}"] + ([f"{kw} seen {date}"] if date else []) + ['', '@data' if not comments else '@DATA']
@@ -230,7 +232,7 @@ def table_roundtrip(sym, fmt):
             sym.check(len(vals) == len(exp), f"row {r} has {len(vals)} cells, the file declares {len(exp)} attributes")
             nom = vals[2]
             if nom is not None and hasattr(nom, 'levels'):
-                sym.check(list(nom.levels) == ['A','B','C D'], f"nominal attribute declared as {nomdecl} read with levels {list(nom.levels)!r}")
+                sym.check(list(nom.levels) == ['A','B','C D'] or (fmt == 'arff_sparse' and list(nom.levels) == ['0','A','B','C D']), f"nominal attribute declared as {nomdecl} read with levels {list(nom.levels)!r}")      # sparse ARFF adds its implicit default level '0'
             for c,(x,e) in enumerate(zip(vals,exp)):
                 ok = (x is None) if e is None else (x == e if c == 0 else str(x) == e)
                 sym.check(ok, f"cell ({r},{c}) read as {x!r} but the file says {e!r} :: line {lines[-(2-r) if not comments else -1]!r} quote={qs} delim={delim!r}")
@@ -239,6 +241,7 @@ def table_roundtrip(sym, fmt):
         header = sym.flag('header')
         svals = [STR_VOCAB[unwrap(sym.int(f's{r}', 0, len(STR_VOCAB)-1))] for r in range(2)]
         table = [[NUMS[r], svals[r], NOMS[r]] for r in range(2)]
+        if sym.flag('all_empty_record'): table[sym.choice('which_empty', [0,1])] = ['','','']        # RFC-4180: ",," is a record of three empty cells, not a blank line
         def q(v): return '"' + v.replace('"','""') + '"' if any(c in v for c in ',"\n') or v == '' else v
         lines = ([','.join(['n','s','m'])] if header else []) + [','.join(q(v) for v in row) for row in table]
         lines = lines[:1] + [''] + lines[1:] if sym.flag('blank') else lines
